@@ -226,14 +226,64 @@ def translate(src_text):
     i_hif = _index(call.body, lambda s: isinstance(s, ast.Expr) and U(s.value).startswith("self.handle_insufficient_fund_case"), "hif call")
     if not i_msg < i_hif:
         raise TranslateError("call: handle_insufficient_fund_case before the message is built")
+    # the static-context check of a value-bearing CALL (absent = the value-bearing CALL is executed)
+    i_fund = _index(call.body, lambda s: isinstance(s, (ast.Assign, ast.AnnAssign)) and U(s.target if isinstance(s, ast.AnnAssign) else s.targets[0]) == "fund", "fund assignment")
+    st_ifs = [i for i, s in enumerate(call.body) if isinstance(s, ast.If) and "is_static" in U(s.test)]
+    if len(st_ifs) > 1:
+        raise TranslateError("call: more than one static-context test")
+    if st_ifs:
+        i_st = st_ifs[0]
+        sif = call.body[i_st]
+        if not (i_fund < i_st < i_msg) or sif.orelse:
+            raise TranslateError("call: the static-context test must sit between the fund and the message, without else")
+        # everything between popping the fund and the test must be free of effects on the network state
+        for s in call.body[i_fund + 1:i_st]:
+            if not (isinstance(s, ast.Expr) and isinstance(s.value, ast.Constant)):
+                raise TranslateError(f"call: unexpected statement before the static-context test: {U(s)}")
+        inner = [s for s in sif.body if not (isinstance(s, ast.Expr) and isinstance(s.value, ast.Constant))]
+        # a symbolic value in a static frame is a stuck path (NotConcreteError), not an outcome
+        if len(inner) == 2 and isinstance(inner[0], ast.If) and U(inner[0].test) == "fund.is_symbolic" and not inner[0].orelse \
+                and len(inner[0].body) == 1 and U(inner[0].body[0]).startswith("raise NotConcreteError("):
+            inner = inner[1:]
+        if not (len(inner) == 1 and isinstance(inner[0], ast.If) and not inner[0].orelse and len(inner[0].body) == 1
+                and U(inner[0].body[0]).startswith("raise WriteInStaticContext(")):
+            raise TranslateError(f"call: unexpected body of the static-context test: {[U(s) for s in sif.body]}")
+        senv = {"op": ("op", "Z"), "ex.message().is_static": ("cur_static", "bool"), "ex.context.message.is_static": ("cur_static", "bool"),
+                "fund.value": ("fund", "Z"), "fund": ("fund", "Z"), "ZERO": ("0", "Z")}
+        se = Ex(senv, ops)
+        emit("call_static_value_check", "(op : Z) (cur_static : bool) (fund : Z) ", "bool", f"(andb {se.b(sif.test)} {se.b(inner[0].test)})")
+    else:
+        emit("call_static_value_check", "(op : Z) (cur_static : bool) (fund : Z) ", "bool", "false")
     scv = _nested(call, "send_callvalue")
     body = [s for s in scv.body if not (isinstance(s, ast.Expr) and isinstance(s.value, ast.Constant))]
-    if len(body) != 1 or not isinstance(body[0], ast.If) or body[0].orelse:
-        raise TranslateError("send_callvalue: a single `if` expected")
+    if len(body) != 1 or not isinstance(body[0], ast.If):
+        raise TranslateError("send_callvalue: a single `if` (with an optional `elif`) expected")
     emit("sends_value", "(op : Z) ", "bool", Ex({"op": ("op", "Z")}, ops).b(body[0].test))
+    if len(body[0].body) != 1:
+        raise TranslateError("send_callvalue: the transferring branch must be the single transfer_value call")
     tv = _call_stmt(body[0].body, "self.transfer_value")
     if [U(a) for a in tv.args] != ["ex", "pranked_caller", "to", "fund", "condition"]:
         raise TranslateError("send_callvalue: unexpected arguments of transfer_value")
+    # elif: a scheme that moves nothing but still needs the balance (CALLCODE); absent = no requirement
+    if not body[0].orelse:
+        emit("callvalue_checks_balance", "(op fund : Z) ", "bool", "false")
+        emit("callvalue_balance_ok", "(bal fund : Z) ", "bool", "true")
+    else:
+        if not (len(body[0].orelse) == 1 and isinstance(body[0].orelse[0], ast.If) and not body[0].orelse[0].orelse):
+            raise TranslateError("send_callvalue: a single `elif` without `else` expected")
+        el = body[0].orelse[0]
+        eenv = {"op": ("op", "Z"), "fund.is_concrete and fund.value == 0": ("(Z.eqb fund 0)", "bool")}
+        emit("callvalue_checks_balance", "(op fund : Z) ", "bool", Ex(eenv, ops).b(el.test))
+        eb = [s for s in el.body if not (isinstance(s, ast.Expr) and isinstance(s.value, ast.Constant))]
+        if len(eb) != 3:
+            raise TranslateError(f"send_callvalue: unexpected elif body {[U(s) for s in eb]}")
+        benv = {"ex.balance_of(pranked_caller)": ("bal", "Z"), "fund.as_z3()": ("fund", "Z")}
+        emit("callvalue_balance_ok", "(bal fund : Z) ", "bool", Ex(benv).b(_assign_to(eb[:1], "balance_cond")))
+        if not (isinstance(eb[1], ast.If) and U(eb[1].test) == "is_false(balance_cond)" and not eb[1].orelse and len(eb[1].body) == 1
+                and U(eb[1].body[0]).startswith("raise InfeasiblePath(")):
+            raise TranslateError("send_callvalue: elif infeasibility test")
+        if U(eb[2]) != "ex.path.append(balance_cond)":
+            raise TranslateError("send_callvalue: the elif must append balance_cond to the path")
     ck = _nested(call, "call_known")
     bk = _backups(ck.body)
     if sorted(bk) != sorted(NET_FIELDS):
@@ -452,16 +502,43 @@ def translate(src_text):
     rc_ifs = [n for n in ast.walk(run) if isinstance(n, ast.If) and U(n.test) == "opcode == OP_RETURNDATACOPY"]
     if len(rc_ifs) != 1:
         raise TranslateError("run: RETURNDATACOPY arm")
-    guard = _find(rc_ifs[0].body, lambda s: isinstance(s, ast.If), "RETURNDATACOPY size guard")
-    emit("retcopy_guard", "(size : Z) ", "bool", "(negb (Z.eqb size 0))" if U(guard.test) == "size" else "true" if U(guard.test) == "True" else _bad(guard))
-    oob = _find(guard.body, lambda s: isinstance(s, ast.If), "RETURNDATACOPY bound test")
-    if not U(oob.body[0]).startswith("raise OutOfBoundsRead("):
-        raise TranslateError("run: RETURNDATACOPY bound test must raise OutOfBoundsRead")
+    # two accepted shapes:  `if <oob>: raise`  followed by  `if size: <copy>`   (bound test unguarded)
+    #                       `if size: (if <oob>: raise) <copy>`                 (bound test under the size guard)
+    top_ifs = [s for s in rc_ifs[0].body if isinstance(s, ast.If)]
+
+    def _is_oob(s):
+        return isinstance(s, ast.If) and not s.orelse and len(s.body) == 1 and U(s.body[0]).startswith("raise OutOfBoundsRead(")
+
+    def _guard_of(s):
+        if s.orelse:
+            raise TranslateError("run: RETURNDATACOPY size guard with else")
+        return "(negb (Z.eqb size 0))" if U(s.test) == "size" else "true" if U(s.test) == "True" else _bad(s)
+
+    if len(top_ifs) == 2 and _is_oob(top_ifs[0]) and not _is_oob(top_ifs[1]):
+        oob, guard = top_ifs
+        if [s for s in guard.body if isinstance(s, ast.If)]:
+            raise TranslateError("run: RETURNDATACOPY unexpected nested test")
+        emit("retcopy_guard", "(size : Z) ", "bool", "true")
+        copy_body = guard.body
+    elif len(top_ifs) == 1 and not _is_oob(top_ifs[0]):
+        guard = top_ifs[0]
+        oob = _find(guard.body, lambda s: isinstance(s, ast.If), "RETURNDATACOPY bound test")
+        if not _is_oob(oob) or guard.body.index(oob) != 0:
+            raise TranslateError("run: RETURNDATACOPY bound test must come first and raise OutOfBoundsRead")
+        emit("retcopy_guard", "(size : Z) ", "bool", _guard_of(guard))
+        copy_body = guard.body[1:]
+    else:
+        raise TranslateError("run: RETURNDATACOPY arm has an unexpected shape")
+    emit("retcopy_copy_guard", "(size : Z) ", "bool", _guard_of(guard))
     env = {"offset": ("offset", "Z"), "size": ("size", "Z"), "ex.returndatasize()": ("rds", "Z")}
     emit("retcopy_oob", "(offset size rds : Z) ", "bool", Ex(env).b(oob.test))
-    sl = _assign_to(guard.body, "data")
-    if U(sl) != "ex.returndata().slice(offset, offset + size)":
-        raise TranslateError("run: RETURNDATACOPY slice")
+    if [U(s) for s in copy_body if not (isinstance(s, ast.Expr) and isinstance(s.value, ast.Constant))] != \
+            ["data: ByteVec = ex.returndata().slice(offset, offset + size)", "state.set_mslice(loc, data)"]:
+        raise TranslateError(f"run: RETURNDATACOPY copy {[U(s) for s in copy_body]}")
+    pre = [U(s) for s in rc_ifs[0].body if not isinstance(s, ast.If)]
+    if pre != ["loc: int = ex.mloc(check_size=False)", "offset = ex.int_of(state.pop(), 'symbolic RETURNDATACOPY offset')",
+               "size: int = ex.int_of(state.pop(), 'symbolic RETURNDATACOPY size')"]:
+        raise TranslateError(f"run: RETURNDATACOPY operands {pre}")
 
     head = ["(* GENERATED by translate/t_callmsg.py from src/halmos/sevm.py -- do not edit *)",
             "From Coq Require Import ZArith Bool.", "From HV Require Import Gen.GenOpcodes Gen.GenConsts.", "Open Scope Z_scope.", ""]
